@@ -208,6 +208,14 @@ def step (line : String) : String :=
       (match Kinds.chain ks ir with
        | some out => (Json.mkObj [("ok", irToJson out)]).compress
        | none => "{\"unmodelled\":\"a description on the chain leaves the regular domain of the next kind\"}")
+    | .ok "fill" =>
+      let t := (optStr j "text").getD []
+      let w := (j.getObjValAs? Nat "width").toOption.getD 100
+      let words := splitOnChar ' ' t
+      let simple := !t.isEmpty && !t.any (fun c => c == '\t' || c == '\n' || c == '-' || c == '\r' || c == '\x0b' || c == '\x0c')
+        && words.all (fun x => !x.isEmpty && x.length ≤ w) && t.all (fun c => c.toNat < 128)
+      if simple then (Json.mkObj [("ok", Json.str (String.ofList (Wrap.fillSimple w t)))]).compress
+      else "{\"unmodelled\":\"text outside the simple class of textwrap.fill\"}"
     | .ok "conform" =>
       let b (k : String) := (j.getObjValAs? Bool k).toOption.getD false
       let o : Conform.Obs := { fileExists := b "exists", found := b "found", cmpEq := b "cmp_eq",
